@@ -124,6 +124,54 @@ def parallel_unit(K=2):
                 max_paths=400, replay=lambda vals, label: replay_parallel())
 
 
+def rebind_unit():
+    """a two-run history on ONE model object: exact run, new parameter values, exact run again from the same
+    state.  The clocks of the second run must be scaled by the rates under the CURRENT parameters."""
+    from pygom.model import simulate as simmod
+    from pygom.model import stochastic_simulation as ss
+    spec = [s_ for s_ in shape_specs() if s_.name == "shape_1x2"][0]
+
+    def h(c):
+        m = spec.build()           # a fresh object: whatever it memoises starts empty
+        x0 = arr(c, [c.intreal("x0", lo=1, hi=4)])
+        t0 = c.real("t0")
+        T = c.real("T")
+        c.assume(T > t0)
+        m._stochasticParam = None
+        m._state_lims = [(0, None)]
+        real_fr = ss.firstReaction
+        calls = {"n": 0}
+
+        def fr(*a, **k):
+            calls["n"] += 1
+            if calls["n"] > 1:
+                return 0, 0, 0, 0, False
+            return real_fr(*a, **k)
+        for run in (1, 2):
+            th = {p: c.real("run%d_%s" % (run, p), lo=0, lo_strict=True) for p in spec.params}
+            m.parameters = [th[p] for p in spec.params]
+            m.initial_values = (x0, t0) if c.mode == "sym" else (np.array(x0, float), np.float64(t0))
+            if c.mode == "sym":
+                m._x0 = x0
+            stream = make_stream(c, "r%d" % run)
+            calls["n"] = 0
+            with global_rng(stream), stubs.patched((simmod, "firstReaction", fr)):
+                X, Jm, Tm, dT = m._jump(T, exact=True, full_output=True)
+            c.reachable("run %d returned" % run)
+            env = {spec.states[0]: x0[0], "t": t0}
+            env.update(th)
+            rates = [expr.ev(e, env) for e in spec.rates()]
+            pos = [j for j, r in enumerate(rates) if bool(r > 0)]
+            c.prove(len(stream.log) == len(pos), "run %d: one exponential draw per positive-rate event" % run)
+            for m_, j in enumerate(pos):
+                if m_ < len(stream.log):
+                    c.prove(close(stream.log[m_][2] * rates[j], 1, c),
+                            "run %d: clock %d is Exp with scale 1/rate under the parameters in force for THIS run" % (run, m_))
+    return Unit("C05.two_runs_new_parameters[shape_1x2]", h,
+                bounds={"model": "1 state, 2 events", "history": "exact run, parameters re-assigned, exact run from the same state", "steps_per_run": 1},
+                max_paths=200)
+
+
 def replay_parallel():
     """real numpy generators, real stepping code, dask by its sequential contract: with equal rates, two events
     given the same draw tie exactly (probability zero for independent clocks)"""
@@ -184,6 +232,7 @@ class C05(Check):
             us.append(first_reaction_unit(S, E, asserts=("walk", "map"), tag="C05"))
         us.append(jump_unit(expr.by_name("sir"), True, 2, tag="C05"))
         us.append(parallel_unit(2))
+        us.append(rebind_unit())
         return us
 
 
